@@ -101,6 +101,10 @@ def _w_write(fd, data):
         if k:
             _real["write"](fd, data[:k])
         raise Crash("mid write after %d bytes" % k)
+    if mode == "short":
+        # the system takes only part of what it is given (a quota, a nearly full disk) and says so
+        k = max(1, min(arg, len(data) - 1)) if len(data) > 1 else len(data)
+        return _real["write"](fd, data[:k])
     n = _real["write"](fd, data)
     if mode == "after":
         raise Crash("after write")
@@ -409,12 +413,15 @@ def _file_sig(path):
         return None
 
 
-def construct(world, writer=None):
+def construct(world, writer=None, spelling=0):
     from mako.template import Template
     kw = {}
     if writer is not None:
         kw["module_writer"] = writer
-    t = Template(filename=world.src, module_directory=world.mods, **kw)
+    # the same file under another spelling of its path: same module file, nothing more is due (ef8c4c6)
+    d, b = os.path.split(world.src)
+    fn = [world.src, os.path.join(d, ".", b), os.path.join(d, "..", os.path.basename(d), b)][spelling]
+    t = Template(filename=fn, module_directory=world.mods, **kw)
     return t.render()
 
 
@@ -527,6 +534,38 @@ def run_crash_part(ctx, model_lines, model_expect, disagreements):
                     obs_t = "partial"
                 obs_temp = ",".join("0=2:%d:%d" % (sz, total) for _, sz in temps)
                 model_expect.append(("crash", case, "target=%s;temps=%s" % (obs_t, obs_temp)))
+        # a write that is cut short without failing: the module that ends up in place must still be complete
+        sys.dont_write_bytecode = True
+        for prior in ("none", "old"):
+            for frac in (0.0, 0.5, 0.99):
+                world.remove_module()
+                world.clean_temps()
+                if prior == "old":
+                    world.set_source(1, 1_800_000_000)
+                    construct(world)
+                    os.utime(world.modpath, (1_800_000_100, 1_800_000_100))
+                world.set_source(2, 1_800_000_200)
+                total = len(world.ref(2))
+                s = Session(world.moddir, world.modpath, plans={0: (1, "short", int(total * frac))})
+                _sess[0] = s
+                try:
+                    out = construct(world)
+                except BaseException as e:  # noqa
+                    out = "raised " + type(e).__name__
+                finally:
+                    _sess[0] = None
+                ctx.evaluations += 1
+                ctx.nontrivial.add(("short-write", prior, frac))
+                st = world.target_state()
+                case = {"prior": prior, "short_write_of_bytes": int(total * frac), "of": total, "render": out, "target_after": st,
+                        "fs_calls_seen": "".join(e[1] for e in s.events)}
+                try:
+                    later = construct(world)
+                except BaseException as e:  # noqa
+                    later = "raised " + type(e).__name__
+                case["later_render"] = later
+                if st != ("complete", 2) or out != "v2" or later != "v2":
+                    ctx.violation(case, "after a write that the system cut short the module path does not hold the complete new module", tags=["c15.short-write"])
     finally:
         sys.dont_write_bytecode = old_dwb
         world.close()
@@ -722,7 +761,8 @@ def run_decision_part(ctx, model_lines, model_expect, tier):
                         mm = re.search(rb"^_magic_number = (\d+)", open(world.modpath, "rb").read(), re.M)
                         mf = re.search(rb"^_template_filename = (.*)$", open(world.modpath, "rb").read(), re.M)
                         try:
-                            same = 1 if (mf and eval(mf.group(1).decode()) == world.src) else 0
+                            # the same file, however its path is spelled
+                            same = 1 if (mf and os.path.abspath(eval(mf.group(1).decode())) == os.path.abspath(world.src)) else 0
                         except Exception:  # noqa
                             same = 0
                         mstate = "%d %d %d" % (int(mst.st_mtime), int(mm.group(1)) if mm else 0, same)
@@ -733,7 +773,7 @@ def run_decision_part(ctx, model_lines, model_expect, tier):
                     s = Session(world.moddir, world.modpath)
                     _sess[0] = s
                     try:
-                        out = construct(world, writer if use_writer else None)
+                        out = construct(world, writer if use_writer else None, spelling=rng.choice([0, 0, 1, 2]))
                     except BaseException as e:  # noqa
                         out = "raised " + type(e).__name__
                     finally:
